@@ -365,7 +365,11 @@ func TestProp_HonestHistories(t *testing.T) {
 				}
 				opts = append(opts, nodeenrollment.WithExtraAlpnProtos(ex))
 			}
-			switch rapid.SampledFrom([]string{"none", "none", "empty-struct", "nested", "small", "medium", "large"}).Draw(t, "clientState") {
+			switch rapid.SampledFrom([]string{"none", "none", "empty-struct", "nested", "small", "medium", "large", "sized", "sized"}).Draw(t, "clientState") {
+			case "sized":
+				// a state of any size, byte by byte: the request carried in the protocol
+				// list then ends anywhere relative to the chunk boundaries
+				opts = append(opts, nodeenrollment.WithState(&structpb.Struct{Fields: map[string]*structpb.Value{"v": structpb.NewStringValue(strings.Repeat("x", rapid.IntRange(0, 700).Draw(t, "stateBytes")))}}))
 			case "empty-struct":
 				// a state structure without fields (it marshals to zero bytes)
 				opts = append(opts, nodeenrollment.WithState(&structpb.Struct{Fields: map[string]*structpb.Value{}}))
